@@ -221,7 +221,7 @@ def r3_r5_recv_loop(ctx):
     ctx.evals(len(paths))
     for p in paths:
         if p.exit[0] == "raise":
-            ctx.undecided("C07.R4", loc(fi), f"purge branch raises on the model: {vkey(p.exit[1])[:80]}")
+            ctx.violation("C07.R4", fi.qual, loc(fi), "purge handled", f"a DatasetPurge with transfers in progress makes the data server loop raise {vkey(p.exit[1])[:80]} (the data server dies)")
             continue
         w = [e for e in p.effects if e.kind == "call" and e.data["name"].endswith("futures.wait") or (e.kind == "call" and e.data["name"] == "wait")]
         pg = [e for e in p.effects if is_call(e, qual=SHM + "purge")]
